@@ -106,6 +106,16 @@ def handle (args : List String) (impl : String) : Verdict :=
       let ok := !impl.startsWith "PANIC" && !impl.startsWith "HANG"
       { model := m, spec := some ok, note := if ok then "" else "class=decode-panic" }
     | _, _ => bad "C11 mrg"
+  | ["mre", t, v, sel, ps] =>
+    match parseTy t >>= fun T => (parseVal T v).map (fun x => (T, x)), parseCps ps with
+    | some (T, x), some ps =>
+      let other := strBytes "-other"
+      let id := if sel == "i" then x.id ++ other else if sel == "e" then [] else x.id
+      let parent := if sel == "p" then x.parent ++ other else if sel == "n" then [] else x.parent
+      let m := match mergeEdgePoints num T id parent ps x with | some d => decOut d | none => "nomatch"
+      let ok := !impl.startsWith "PANIC" && !impl.startsWith "HANG"
+      { model := m, spec := some ok, note := if ok then "" else "class=decode-panic" }
+    | _, _ => bad "C11 mre"
   | ["dm", t, a, b] =>
     match parseTy t >>= fun T => (parseVal T a).bind (fun x => (parseVal T b).map (fun y => (T, x, y))) with
     | some (T, x, y) =>
